@@ -35,7 +35,8 @@ AttrVariants(as2) ==
   \cup {PathA("aspath", sg) : sg \in SegClasses(IF as2 THEN 2 ELSE 4)}
   \cup {PathA("as4path", sg) : sg \in SegClasses(4)}
 SweepAttr ==
-  UNION {{Beh(One(a), Opt(e, as2, FALSE, FALSE)) : a \in AttrVariants(as2), e \in BOOLEAN} : as2 \in BOOLEAN}
+  UNION {{Beh(One(a), Opt(e, as2, p, p)) : a \in AttrVariants(as2), e \in BOOLEAN,
+                                           p \in (IF Thorough THEN BOOLEAN ELSE {FALSE})} : as2 \in BOOLEAN}
   \cup {Beh(Update(<<>>, <<a>>, <<>>), Opt(FALSE, as2, FALSE, FALSE)) :
            a \in AttrVariants(FALSE), as2 \in {FALSE}}
 
@@ -124,8 +125,9 @@ ExampleNames ==
    "nlri:ipv4-srpolicy", "nlri:ipv6-srpolicy", "nlri:ipv4-mup", "nlri:ipv6-mup"}
 (* the package's helper builds a 4-octet AS_PATH whatever the session: not a 2-octet-AS message *)
 FourOctetOnly == {"msg:helper-update"}
-SweepEx == {Beh(Example(n), Opt(FALSE, a, ap, ap)) : n \in ExampleNames, a \in BOOLEAN, ap \in BOOLEAN}
-           \ {Beh(Example(n), Opt(FALSE, TRUE, ap, ap)) : n \in FourOctetOnly, ap \in BOOLEAN}
+ExAp == IF Thorough THEN {<<p, q>> : p \in BOOLEAN, q \in BOOLEAN} ELSE {<<FALSE, FALSE>>, <<TRUE, TRUE>>}
+SweepEx == {Beh(Example(n), Opt(FALSE, a, ap[1], ap[2])) : n \in ExampleNames, a \in BOOLEAN, ap \in ExAp}
+           \ {Beh(Example(n), Opt(FALSE, TRUE, ap[1], ap[2])) : n \in FourOctetOnly, ap \in ExAp}
 
 Behaviours ==
   CASE Sweep = "attr" -> SweepAttr
@@ -136,6 +138,7 @@ Behaviours ==
     [] OTHER          -> {}
 
 (* ---- sweep "random": combinations (TLC -simulate; RandomElement keeps the branching at 1) ---- *)
+(* every operator below takes a parameter: TLC evaluates zero-arity definitions once and caches them *)
 RandAttr(as2) ==
   LET t == RandomElement(AttrKinds \ {"origin", "nexthop"}) IN
   CASE t \in {"communities", "clusterlist", "extcomm", "large", "ip6extcomm", "unknown"} ->
@@ -144,18 +147,21 @@ RandAttr(as2) ==
     [] t = "as4path" -> PathA(t, RandomElement(SegClasses(4)))
     [] t \in MpKinds -> LET f == RandomElement(CoreFamilies) IN MpA(t, f, RandomElement(NlVariants(f)))
     [] OTHER         -> Simple(t)
+RECURSIVE RandAttrs(_, _)
+RandAttrs(k, as2) == IF k = 0 THEN <<>> ELSE <<RandAttr(as2)>> \o RandAttrs(k - 1, as2)
 RandShape(as2) ==
-  LET k == RandomElement(0..5) IN
   Update(RandomElement(BodyVariants \ {Rep(90, NL(24, 0))}),
-         <<Simple("origin")>> \o [i \in 1..k |-> RandAttr(as2)],
+         <<Simple("origin")>> \o RandAttrs(RandomElement(0..5), as2),
          RandomElement(BodyVariants))
-RandBeh ==
+RandBeh(step) ==
   LET as2 == RandomElement(BOOLEAN) IN
   Beh(RandShape(as2), Opt(RandomElement(BOOLEAN), as2, RandomElement(BOOLEAN), RandomElement(BOOLEAN)))
 
-Init == IF Sweep = "random" THEN beh = RandBeh ELSE beh \in Behaviours
-Next == IF Sweep = "random" THEN beh' = RandBeh ELSE UNCHANGED beh
-GenSpec == Init /\ [][Next]_gvars
+VARIABLE step
+gv == <<beh, step>>
+Init == step = 0 /\ (IF Sweep = "random" THEN beh = RandBeh(0) ELSE beh \in Behaviours)
+Next == IF Sweep = "random" THEN step' = step + 1 /\ beh' = RandBeh(step') ELSE UNCHANGED gv
+GenSpec == Init /\ [][Next]_gv
 
 Emit == PrintT("VPOUT " \o ToJson(beh))
 =============================================================================
